@@ -2,7 +2,7 @@
    extraction and for vm_compute cross-checks. *)
 From Coq Require Import ZArith List Bool Arith Lia.
 From Coq Require Import QArith.
-From RV Require Import Val Syntax Rho Offline Online Sat IA Pastify Jitter Units Support ExtZ.
+From RV Require Import Val Syntax Rho Offline Online Sat IA Pastify Jitter Units Support Lexer Parser Elab ExtZ.
 Import ListNotations.
 
 Definition zformula := @formula ExtZVal.
@@ -27,6 +27,9 @@ Definition run_jitter (P tol : Q) (ts : list Q) : nat * (nat * nat) :=
 
 Definition run_supported (k : nat) (p : zformula) : bool :=
   supported (match k with O => DiscOff | S O => DiscOn | S (S O) => DenseOff | _ => DenseOn end) p.
+
+Definition run_parse := parse_outcome.
+Definition run_lex := lex_string.
 
 Definition run_hor (p : zformula) : nat := hor p.
 Definition run_bounded_future (p : zformula) : bool := bounded_future p.
